@@ -224,9 +224,39 @@ func enabledOps(s *pbref.Schema, root *pbref.Val) []pbref.Op {
 			ops = append(ops, pbref.Op{Kind: pbref.OpSetMany, Path: p, Many: []pbref.ManyItem{
 				{Step: pbref.Step{K: pbref.SIndex, I: 1024}, Val: newElem(f, 1)},
 				{Step: pbref.Step{K: pbref.SIndex, I: 1024}, Val: newElem(f, 0)}}})
+			if len(v.L) > 0 {
+				// SetMany replacing the LAST element by one of another length together with an append
+				ops = append(ops, pbref.Op{Kind: pbref.OpSetMany, Path: p, Many: []pbref.ManyItem{
+					{Step: pbref.Step{K: pbref.SIndex, I: len(v.L) - 1}, Val: newElem(f, 3)},
+					{Step: pbref.Step{K: pbref.SIndex, I: 1024}, Val: newElem(f, 1)}}})
+			}
 		case v.Card == pbref.Map:
-			if k := pbref.AbsentKey(v); k != nil {
+			k := pbref.AbsentKey(v)
+			if k != nil {
 				ops = append(ops, pbref.Op{Kind: pbref.OpSet, Path: ext(p, pbref.Step{K: pbref.SKey, Key: k}), Val: newElem(f, 1)})
+			}
+			// SetMany on the map: replace the value of the LAST present key by one of another length, alone, together
+			// with an insertion, and in both request orders
+			if n := len(v.MK); n > 0 {
+				var repl *pbref.Val
+				if v.Kind == pbref.KMessage {
+					if one := oneFieldMsg(v.Msg); one != nil && !pbref.Equal(one, v.MV[n-1]) {
+						repl = one
+					} else {
+						repl = pbref.MsgVal(v.Msg)
+					}
+				} else if a := altValues(v.MV[n-1]); len(a) > 0 {
+					repl = a[0]
+				}
+				if repl != nil {
+					items := []pbref.ManyItem{{Step: pbref.Step{K: pbref.SKey, Key: v.MK[n-1]}, Val: repl}}
+					ops = append(ops, pbref.Op{Kind: pbref.OpSetMany, Path: p, Many: items})
+					if k != nil {
+						ins := pbref.ManyItem{Step: pbref.Step{K: pbref.SKey, Key: k}, Val: newElem(f, 1)}
+						ops = append(ops, pbref.Op{Kind: pbref.OpSetMany, Path: p, Many: []pbref.ManyItem{items[0], ins}},
+							pbref.Op{Kind: pbref.OpSetMany, Path: p, Many: []pbref.ManyItem{ins, items[0]}})
+					}
+				}
 			}
 		case v.Kind == pbref.KMessage:
 			n := 0
